@@ -126,6 +126,8 @@ def dependencies(prop, info, R):
     by_name = {}
     for f in info.functions:
         by_name.setdefault(f['key'].rsplit('::', 1)[-1], []).append(f)
+        if f.get('real_name') and f['real_name'] != f['key'].rsplit('::', 1)[-1]:
+            by_name.setdefault(f['real_name'], []).append(f)   # bodies call a renamed function by its current name
     calls = {f['key']: f.get('calls', []) for f in info.functions}
     types = set(f['key'].rsplit('::', 1)[0].split(' for ')[-1] for f in info.functions if '::' in f['key'])
     work = list(deps)
